@@ -43,6 +43,8 @@ LEN_CALLS = (
 
 NON_ORIGIN_SUFFIX = ('::new', '::from_elem', '::with_capacity', '::default', '::from_str', '::new_display', '::new_debug', '::from', '::into', '::of', '::generator', '::identity')
 
+ITER_TY_MARKERS = ('IterMut', 'Zip<', 'Enumerate<', 'ChunksMut', 'ChunksExactMut', 'Rev<', 'Skip<', 'Take<', 'StepBy<', 'Chain<', 'Peekable<')
+
 NARROW_BINOPS = ('BitAnd', 'Rem', 'Shr', 'Div')
 
 INT_BITS = {'u8': 8, 'u16': 16, 'u32': 32, 'u64': 64, 'u128': 128, 'usize': 64,
@@ -219,7 +221,59 @@ class FnDep:
             return False  # a view, not a storage location of its own
         root, path = self.resolve_place(pl)
         ch = self.write(root, path, atoms)
+        for r in self._through_mut(pl, root):
+            ch |= self.write(r, (), atoms)
         return ch
+
+    def _through_mut(self, pl, root):
+        """`*s = v` where s is a `&mut` element handed out by an iterator chain (iter_mut / zip / enumerate / next ...): the storage written
+        is the container the chain was started on"""
+        if any(p['k'] == 'deref' for p in pl.get('p', [])) and self.body.local_ty(pl['l']).startswith('&mut ') and root == pl['l']:
+            return [r for r in self.mut_origins(pl['l']) if r != root]
+        return []
+
+    def mut_origins(self, l, _seen=None):
+        """storage locals a `&mut` value obtained through an iterator chain may point into"""
+        seen = _seen if _seen is not None else set()
+        if l in seen or len(seen) > 64:
+            return set()
+        seen.add(l)
+        ds = self.defs.get(l, [])
+        if self.is_param(l) or not ds:
+            return {l}
+        out = set()
+        for kind, bi, x in ds:
+            if x.get('dst', {}).get('p'):
+                continue      # a write through the reference, not a definition of it
+            if kind == 'assign':
+                rv = x['rv']
+                if rv['k'] in ('use', 'cast') and rv['op']['k'] in ('copy', 'move'):
+                    out |= self.mut_origins(rv['op']['pl']['l'], seen)
+                elif rv['k'] in ('ref', 'rawptr'):
+                    src = rv['pl']
+                    if any(p['k'] == 'deref' for p in src.get('p', [])):
+                        out |= self.mut_origins(src['l'], seen)
+                    else:
+                        r0, _ = self.resolve_place(src)
+                        ty0 = self.body.local_ty(r0)
+                        if r0 != l and (ty0.startswith('&mut ') or any(m in ty0 for m in ITER_TY_MARKERS)):
+                            out |= self.mut_origins(r0, seen)
+                        else:
+                            out.add(r0)
+                elif rv['k'] == 'agg':
+                    for o in rv.get('ops', []):
+                        if o['k'] in ('copy', 'move') and ('&mut' in self.body.local_ty(o['pl']['l']) or 'Iter' in self.body.local_ty(o['pl']['l'])):
+                            out |= self.mut_origins(o['pl']['l'], seen)
+            elif kind == 'call':
+                cal = x.get('callee') or ''
+                if cal.startswith(('std::iter::', 'core::iter::', 'core::slice::', 'std::vec::Vec', 'std::ops::IndexMut', 'std::ops::DerefMut', 'std::option::Option',
+                                   'std::slice::', 'std::convert::AsMut', 'std::borrow::BorrowMut')):
+                    for a in x['args']:
+                        if a['k'] in ('copy', 'move'):
+                            ty = self.body.local_ty(a['pl']['l'])
+                            if '&mut' in ty or any(m in ty for m in ITER_TY_MARKERS):
+                                out |= self.mut_origins(a['pl']['l'], seen)
+        return out
 
     # ------------------------------------------------------------ transfer functions
     def _closure_info(self, l):
@@ -395,7 +449,10 @@ class FnDep:
         if self.is_alias_local(dst):
             return False
         root, path = self.resolve_place(dst)
-        return self._copy_to(root, path, src)
+        ch = self._copy_to(root, path, src)
+        for r in self._through_mut(dst, root):
+            ch |= self._copy_to(r, (), src)
+        return ch
 
     def _copy_to(self, root, path, src):
         """copy node `src` (with its recorded sub-paths) to (root, path)."""
